@@ -1,9 +1,9 @@
-(* The translator tie, part 3a: ASCII_CHARS of src/generator/source.rs (gen/SrcConsts.v) is the model's table. *)
+(* The translator tie, part 3a: ASCII_CHARS of src/generator/source.rs (gen/SrcAscii.v, gen/SrcFront.v, gen/SrcMut.v) is the model's table. *)
 From Coq Require Import List NArith ZArith Bool Arith Lia.
 Import ListNotations.
 From PF Require Import Opcodes RefTable Config Sim.
 From PF Require Import Lex Entropy Mutators Front.
-From PF.gen Require SrcConsts.
+From PF.gen Require SrcAscii.
 
-Lemma src_ascii_chars_eq : SrcConsts.Src.ascii_chars = ascii_chars.
+Lemma src_ascii_chars_eq : SrcAscii.Src.ascii_chars = ascii_chars.
 Proof. reflexivity. Qed.
